@@ -7,7 +7,7 @@
    interleaving of the atomic events of all peers (a superset of what frames can produce). *)
 From stdpp Require Import gmap list.
 From Coq Require Import NArith.
-From BS Require Import Abs.Values Abs.ValuesProofs.
+From BS Require Import Abs.Values Abs.ValuesProofs Abs.ValuesCausal.
 
 (* Writers separated by a drain (between two writes by different peers the system is quiescent at
    least once), and a joiner does not write while its snapshot is still on its way to it: then at EVERY quiescent
@@ -51,6 +51,51 @@ Theorem C02_refuted_in_join_window :
     pcur s' p <> last (written tr) /\ pcur s' p <> pcur s' q /\ ~ joiners_received (vinit n) tr.
 Proof. exact ValuesProofs.C02_join_window_refuted. Qed.
 
+(* The same under a WEAKER, causal premise (Abs/ValuesCausal.v): the session need not be drained
+   between two writers. A peer other than the author w of the previous write writes as soon as
+   everything w wrote has reached it: w's detector has run and w is not armed, w's link to the host
+   and the host's link to the writer are empty. Writes of one peer at any pace, joins at any moment;
+   `joiners_received` is implied. Then at every quiescent state every peer holds the last write. *)
+Theorem C02_causal_converge :
+  forall n tr s',
+    vrun (vinit n) tr = Some s' -> causally_ordered (vinit n) tr = true -> vquiescent s' ->
+    forall p, peers s' p -> pcur s' p = last (written tr).
+Proof. exact ValuesCausal.C02_causal_converge_strong. Qed.
+
+Theorem C02_causal_every_quiescent_state :
+  forall n tr1 tr2 s1,
+    causally_ordered (vinit n) (tr1 ++ tr2) = true -> vrun (vinit n) tr1 = Some s1 -> vquiescent s1 ->
+    forall p, peers s1 p -> pcur s1 p = last (written tr1).
+Proof. exact ValuesCausal.C02_causal_every_quiescent_state. Qed.
+
+(* the premise means what it should: a peer allowed to write displays the most recent write *)
+Theorem C02_causal_writer_is_current :
+  forall n tr1 p v tr2 s,
+    causally_ordered (vinit n) (tr1 ++ VWrite p v :: tr2) = true -> vrun (vinit n) tr1 = Some s ->
+    is_Some (vstep s (VWrite p v)) -> pcur s p = last (written tr1).
+Proof. exact ValuesCausal.causal_writer_is_current. Qed.
+
+(* every drain-separated history (with the join premise) is causally ordered: the theorem above
+   subsumes C02_values_converge; the inclusion is strict (ValuesCausal.C02_causal_nonvacuous) *)
+Theorem C02_drain_separated_is_causal :
+  forall n tr, drain_separated (vinit n) tr -> joiners_received (vinit n) tr -> causally_ordered (vinit n) tr = true.
+Proof. exact ValuesCausal.drain_separated_is_causal. Qed.
+
+Theorem C02_causal_implies_joiners_received :
+  forall n tr, causally_ordered (vinit n) tr = true -> joiners_received (vinit n) tr.
+Proof. exact ValuesCausal.causal_implies_joiners_received. Qed.
+
+(* "p displays the value of the previous write" is NOT enough, whatever is added about links being
+   empty: comparing values cannot tell whether the message of the previous write has arrived
+   (A -> B -> A by the previous author; a re-write of the displayed value not yet announced) *)
+Theorem C02_value_comparison_is_not_enough :
+  exists n tr s' p q,
+    vrun (vinit n) tr = Some s' /\ naive_causal side_all_links (vinit n) tr = true /\
+    naive_causal side_links (vinit n) tr = true /\ naive_causal side_idle (vinit n) tr = true /\
+    joiners_received (vinit n) tr /\ vquiescent s' /\ peers s' p /\ peers s' q /\
+    pcur s' p <> last (written tr) /\ pcur s' p <> pcur s' q.
+Proof. exact ValuesCausal.C02_naive_causal_refuted. Qed.
+
 (* every local write is announced unless a network apply overtakes it before the detector runs;
    a peer becomes armed (will emit) only by its own write *)
 Theorem C02_armed_only_by_write :
@@ -68,3 +113,9 @@ Print Assumptions C02_joiner_gets_current_value.
 Print Assumptions C02_refuted_in_join_window.
 Print Assumptions C02_armed_only_by_write.
 Print Assumptions C02_write_arms.
+Print Assumptions C02_causal_converge.
+Print Assumptions C02_causal_every_quiescent_state.
+Print Assumptions C02_causal_writer_is_current.
+Print Assumptions C02_drain_separated_is_causal.
+Print Assumptions C02_causal_implies_joiners_received.
+Print Assumptions C02_value_comparison_is_not_enough.
